@@ -215,7 +215,7 @@ def run(chk):
     chk.rule = ('spaces: degree 1-5, clamped/periodic, uniform (cubic fast path and general path), dyadic and random non-uniform, '
                 '1..12 cells incl. every minimal size (1,2,3 cells for clamped uniform cubic, ncells = degree+1 periodic); per space '
                 'several data vectors (normal, per-entry 2^±30, 2^30, 2^-30, integers); distinct by (degree, boundary, kind, cells)')
-    chk.proof_side(build=not getattr(chk, 'no_build', False))
+    chk.proof_side(build=not getattr(chk, 'no_build', False), extra_props=('C09Extra',))
     rng = chk.rng
     drv = common.LeanDriver('C08.lean')
     stats = {}
